@@ -123,8 +123,10 @@ pub struct SymDisk<const N: usize> {
     /// fail the device call with this index (0-based over reads+writes)
     pub fail_at: Option<u32>,
     pub failed: Cell<bool>,
-    /// writes whose log index is >= crash_at are not persisted
+    /// power cut after `crash_at` writes: the library keeps running on the live image
+    /// (`blocks`), `persisted` receives only the writes with log index < crash_at
     pub crash_at: Option<u32>,
+    pub persisted: RefCell<[Block; N]>,
     pub oob: Cell<bool>,
 }
 
@@ -132,6 +134,7 @@ impl<const N: usize> SymDisk<N> {
     pub fn new(base: u32, blocks: [Block; N]) -> Self {
         SymDisk {
             base,
+            persisted: RefCell::new(blocks.clone()),
             blocks: RefCell::new(blocks),
             nreads: Cell::new(0),
             nwrites: Cell::new(0),
@@ -145,6 +148,10 @@ impl<const N: usize> SymDisk<N> {
     }
     pub fn block(&self, idx: u32) -> Block {
         self.blocks.borrow()[(idx - self.base) as usize].clone()
+    }
+    /// block as a power cut after `crash_at` writes leaves it
+    pub fn pblock(&self, idx: u32) -> Block {
+        self.persisted.borrow()[(idx - self.base) as usize].clone()
     }
     pub fn byte(&self, idx: u32, off: usize) -> u8 {
         self.blocks.borrow()[(idx - self.base) as usize].contents[off]
@@ -172,7 +179,16 @@ impl<const N: usize> BlockDevice for SymDisk<N> {
         self.nreads.set(self.nreads.get() + 1);
         if self.fail_at == Some(call) {
             self.failed.set(true);
-            blocks[0] = any_block(); // buffer scribbled on failure
+            // buffer scribbled on failure (arbitrary under the solver; a fixed pattern when a
+            // harness body is re-run natively as a unit test)
+            #[cfg(not(test))]
+            {
+                blocks[0] = any_block();
+            }
+            #[cfg(test)]
+            {
+                blocks[0] = Block { contents: [0xA5; 512] };
+            }
             return Err(DevErr);
         }
         if start.0 < self.base || start.0 - self.base >= N as u32 {
@@ -200,12 +216,11 @@ impl<const N: usize> BlockDevice for SymDisk<N> {
         assert!((n as usize) < LOG_CAP, "device: write log full");
         self.log.borrow_mut()[n as usize] = start.0;
         self.nwrites.set(n + 1);
-        let persist = match self.crash_at {
-            Some(k) => n < k,
-            None => true,
-        };
-        if persist {
-            self.blocks.borrow_mut()[(start.0 - self.base) as usize] = blocks[0].clone();
+        self.blocks.borrow_mut()[(start.0 - self.base) as usize] = blocks[0].clone();
+        if let Some(k) = self.crash_at {
+            if n < k {
+                self.persisted.borrow_mut()[(start.0 - self.base) as usize] = blocks[0].clone();
+            }
         }
         Ok(())
     }
